@@ -602,3 +602,7 @@ def run(ctx):
     _run_main2(ctx)
     extras2(ctx)
     ctx.flush()
+
+
+# evidence: how the model is tied to the source on every run (as built, supersedes the value above)
+TIE = 'translator (eqsig/multiple.py, get_section_average -> Gen/MultipleFns; Props/C18Gen) + correspondence (exact on dyadic inputs)'
